@@ -822,6 +822,8 @@ class Builtins:
                 return I.lift(any(I.truth(self.str_method(s, name, [x], {}, node, fr)) for x in args[0].items))
             if args and isinstance(args[0], Str) and args[0].is_concrete():
                 t = args[0].text()
+                if not s.atoms:
+                    return I.lift(t == "")          # the empty string
                 edge = s.atoms[0] if name == "startswith" else s.atoms[-1]
                 if isinstance(edge, Lit):
                     if len(edge) >= len(t):
